@@ -106,7 +106,7 @@ Fixpoint sem (q : senv) (sel : option nat) (stack : list value) (e : expr) {stru
   | EVarIn v from to =>
       obind (onum (sem q sel stack from)) (fun f =>
       obind (onum (sem q sel stack to)) (fun t =>
-      if (f <? 0)%Z || (t <? 0)%Z || (t <? f)%Z then Some (VBool false) else
+      if (t <? 0)%Z || (t <? f)%Z then Some (VBool false) else
       option_map (fun l => VBool (existsb (fun m => (f <=? Z.of_N (mabs m))%Z && (Z.of_N (mabs m) <=? t)%Z) l))
                  (var_ms q sel v)))
   | EUn o a => obind (sem q sel stack a) (fun x => of_res (eval_un o x))
